@@ -1,11 +1,6 @@
 import Driver.Util
-import Driver.Access
+import Driver.Registry
 open Lean Driver
-
-def dispatch (suite : String) (j : Json) : Except String Verdict :=
-  match suite with
-  | "access" => Driver.Access.handle j
-  | _ => .error s!"unknown suite {suite}"
 
 partial def loop (hin : IO.FS.Stream) (hout : IO.FS.Stream) : IO Unit := do
   let line ← hin.getLine
@@ -20,7 +15,7 @@ partial def loop (hin : IO.FS.Stream) (hout : IO.FS.Stream) : IO Unit := do
       match (getStr j "suite") with
       | .error e => Json.mkObj [("id", id), ("driver_error", e)]
       | .ok suite =>
-        match dispatch suite j with
+        match Driver.dispatch suite j with
         | .ok v => v.toJson id
         | .error e => Json.mkObj [("id", id), ("driver_error", e)]
   hout.putStrLn out.compress
